@@ -228,6 +228,33 @@ func runPair1(m *Model, r *RuleResult) {
 			}
 			// driver: functions that reverse must take the edges from the collected field
 			ai := classifyAddr(st.Addr)
+			// ... and that field holds nothing but what the visitor collected: outside the visitor it is only reset (nil, an empty
+			// or fresh slice) or narrowed from its own content
+			if len(ai.Locs) > 0 {
+				for _, g := range m.Src {
+					if pkgPathOf(g) != pkgPathOf(f) || g == f || m.FuncIsPosctl(g) != ctl {
+						continue
+					}
+					eachInstr(g, func(in ssa.Instruction) {
+						st2, ok := in.(*ssa.Store)
+						if !ok {
+							return
+						}
+						fa2, ok := st2.Addr.(*ssa.FieldAddr)
+						if !ok {
+							return
+						}
+						if _, steps := fieldChain(fa2); locOfSteps(steps) != ai.Locs[0] {
+							return
+						}
+						if collectedListValueOK(st2.Val, ai.Locs[0], 0) {
+							return
+						}
+						r.add(Obligation{Key: "dfs-driver:" + funcKey(g) + ":collected-list-replaced", Pos: m.Pos(st2.Pos()), Desc: "the list of back edges holds only what the visitor collected", Verdict: "violation",
+							Detail: "the collected list is overwritten with " + st2.Val.String() + ": edges that close no cycle on the search stack get reversed (the reversed set is no longer irredundant)", Control: ctl})
+					})
+				}
+			}
 			for _, g := range m.Src {
 				if pkgPathOf(g) != pkgPathOf(f) || rev == nil {
 					continue
@@ -260,6 +287,54 @@ func runPair1(m *Model, r *RuleResult) {
 	if n == 0 {
 		r.undecided("dfs-visitor", "-", "a collecting depth-first visitor must exist in package phase1", "none recognised")
 	}
+}
+
+// collectedListValueOK: nil, a fresh empty slice, or a value narrowed from the current content of the same field
+func collectedListValueOK(v ssa.Value, loc string, depth int) bool {
+	if depth > 6 {
+		return false
+	}
+	switch x := v.(type) {
+	case *ssa.Const:
+		return x.IsNil()
+	case *ssa.MakeSlice:
+		return true
+	case *ssa.Slice:
+		if al, ok := x.X.(*ssa.Alloc); ok {
+			// []T{} is a slice of a fresh zero-length array; a longer array holds elements from elsewhere (variadic packing included)
+			if at, ok := derefType(al.Type()).Underlying().(*types.Array); ok && at.Len() == 0 {
+				return true
+			}
+			return false
+		}
+		return collectedListValueOK(x.X, loc, depth+1)
+	case *ssa.Phi:
+		for _, e := range x.Edges {
+			if !collectedListValueOK(e, loc, depth+1) {
+				return false
+			}
+		}
+		return true
+	case *ssa.UnOp:
+		if x.Op == token.MUL {
+			if fa, ok := x.X.(*ssa.FieldAddr); ok {
+				_, steps := fieldChain(fa)
+				return locOfSteps(steps) == loc
+			}
+		}
+	case *ssa.Call:
+		if b, ok := x.Call.Value.(*ssa.Builtin); ok && b.Name() == "append" && len(x.Call.Args) == 2 {
+			// append(list[:0], list...) and the like: both from the same field
+			return collectedListValueOK(x.Call.Args[0], loc, depth+1) && collectedListValueOK(x.Call.Args[1], loc, depth+1)
+		}
+		if len(x.Call.Args) >= 1 {
+			switch calleeFullName(&x.Call) {
+			case "slices.Clip", "slices.Clone", "slices.DeleteFunc", "slices.Compact", "slices.CompactFunc", "slices.Grow":
+				return collectedListValueOK(x.Call.Args[0], loc, depth+1)
+			}
+		}
+	}
+	return false
 }
 
 // ---------- PAIR-2 ----------
@@ -1196,7 +1271,7 @@ func rightmostReduction(v ssa.Value, seen map[ssa.Value]bool) bool {
 			})
 			return n > 0 && ok
 		}
-		if b, ok := x.Call.Value.(*ssa.Builtin); ok && b.Name() == "max" {
+		if minMaxKind(&x.Call) == "max" {
 			for _, a := range x.Call.Args {
 				bo, ok := a.(*ssa.BinOp)
 				if !ok || bo.Op != token.ADD {
@@ -2464,8 +2539,8 @@ func runBal1(m *Model, r *RuleResult) {
 					if !ok {
 						return
 					}
-					b, ok := call.Call.Value.(*ssa.Builtin)
-					if !ok {
+					mk := minMaxKind(&call.Call)
+					if mk == "" {
 						return
 					}
 					for _, a := range call.Call.Args {
@@ -2519,10 +2594,10 @@ func runBal1(m *Model, r *RuleResult) {
 							lb, lsx := fieldChain(lfa)
 							return locOfSteps(lsx) == igNode+"."+list && (lb == nd || sameSSAExpr(lb, nd, 0))
 						}
-						if b.Name() == "max" && bo.Op == token.ADD && edgeOf(bo.X, "From", "In") && isLoadOf(bo.Y, igEdge+".Delta") {
+						if mk == "max" && bo.Op == token.ADD && edgeOf(bo.X, "From", "In") && isLoadOf(bo.Y, igEdge+".Delta") {
 							lo = call
 						}
-						if b.Name() == "min" && bo.Op == token.SUB && edgeOf(bo.X, "To", "Out") && isLoadOf(bo.Y, igEdge+".Delta") {
+						if mk == "min" && bo.Op == token.SUB && edgeOf(bo.X, "To", "Out") && isLoadOf(bo.Y, igEdge+".Delta") {
 							hi = call
 						}
 					}
